@@ -43,7 +43,7 @@ func (e *Engine) execInstr(fr *frame, in ssa.Instruction, g *Term) {
 		}
 		fr.setReg(x, &FuncV{A: []FuncAlt{{G: tTrue, Fn: fn, Binds: binds}}}, g)
 	case *ssa.MakeSlice:
-		fr.setReg(x, e.makeSlice(fr, x.Type(), fr.val(x.Len).(*Term), fr.val(x.Cap).(*Term), g, x.Pos()), g)
+		fr.setReg(x, e.makeSlice(fr, x.Type(), e.toIdx(fr.val(x.Len), x.Len.Type()), e.toIdx(fr.val(x.Cap), x.Cap.Type()), g, x.Pos()), g)
 	case *ssa.MakeMap:
 		mt := x.Type().Underlying().(*types.Map)
 		o := newObject("map", x.Type(), nil)
@@ -306,6 +306,12 @@ func (e *Engine) sliceArr(s *SliceV) *ArrV {
 
 // arrCopy writes src[soff : soff+n] into dst at doff (array terms).
 func arrCopy(dst, doff, src, soff, n *Term, ew int) *Term {
+	return arrCopyB(dst, doff, src, soff, n, ew, umax(n))
+}
+
+// arrCopyB: as arrCopy, with an externally known upper bound of n (e.g. the
+// size of the smaller backing array).
+func arrCopyB(dst, doff, src, soff, n *Term, ew int, bound uint64) *Term {
 	if n.IsConst() && n.val <= 96 {
 		// read all sources first (overlap-safe: memmove semantics)
 		vals := make([]*Term, n.val)
@@ -317,7 +323,7 @@ func arrCopy(dst, doff, src, soff, n *Term, ew int) *Term {
 		}
 		return dst
 	}
-	if m := umax(n); m <= 64 {
+	if m := bound; m <= 256 {
 		vals := make([]*Term, m)
 		for i := range vals {
 			vals[i] = Select(src, Add(soff, c64(int64(i))))
